@@ -195,6 +195,37 @@ def run(ctx):
         else:
             ctx.bad('C15.4-atoms', name, 'serialiser writes atom(s) %s that the deserialiser does not test for (it knows %s)' % (sorted(ws - rs), sorted(rs)), key='CONST:serde:%s' % name)
 
+    # Option: None is told from Some(x) by the term alone, so nothing a Some(x) can look like may read as None
+    ctx.rule('C15.4-option-none-set', 'deserialize_option answers None only for the atom(s) serialize_none writes: any other variant sent to visit_none would turn Some(x) into None '
+             'for every x that serialises (or decodes) to that variant - e.g. Some(vec![]) arrives from the wire as Nil', floor=1)
+    OB = P.B(DES + 'deserialize_option')
+    if ctx.anchor(OB is not None, DES + 'deserialize_option'):
+        sw = None
+        for i in sorted(OB.live_blocks()):
+            sd = OB.switch_on_discr(i)
+            if sd and sd[1].replace('&', '') == OWNED:
+                sw = (i, sd)
+                break
+        if ctx.anchor(sw is not None, DES + 'deserialize_option:match on the term'):
+            i, (pl, ty, cases, els) = sw
+            vs = [v['n'] for v in ctx.F.adts[OWNED]['variants']]
+            starts = sorted({b for _, b in cases} | {els})
+            excl = exclusive_blocks(OB, starts)
+
+            def to_none(blocks):
+                return any(OB.blocks[bb]['t']['k'] == 'call' and any(n.rsplit('::', 1)[-1] == 'visit_none' for n in callee_names(OB.blocks[bb]['t'])) for bb in blocks)
+            none_vs = sorted(vs[v] for v, b in cases if to_none(excl[b] | {b}))
+            if to_none(excl[els] | {els}) and els not in {b for _, b in cases}:
+                none_vs.append('<every other variant>')
+            extra = [v for v in none_vs if v != 'Atom']
+            if extra:
+                ctx.bad('C15.4-option-none-set', 'deserialize_option', 'visit_none is reached for %s, not only for the None atom: Some(x) with x serialising to such a term comes back as None' % extra,
+                        ctx.where(OB, i), key='TABLE:%sdeserialize_option:none-for:%s' % (DES, ','.join(extra)))
+            elif none_vs:
+                ctx.ok('C15.4-option-none-set', 'deserialize_option', 'visit_none only inside the Atom arm (atoms tested: %s)' % sorted(x for x in strs(DES + 'deserialize_option') if x and x[0].isalpha()), ctx.where(OB, i))
+            else:
+                ctx.undecided('C15.4-option-none-set', 'deserialize_option', 'no arm reaching visit_none recognised')
+
     # ---------------- enum variant shapes -------------------------------------------------------------------------------------
     ctx.rule('C15.5-variant-shapes', 'the four enum-variant shapes produced (atom / {atom,value} / {atom,fields..} / {atom,map}) are the shapes VariantAccess expects', floor=4)
     shapes = {
